@@ -1279,3 +1279,55 @@ Qed.
 
 Lemma inv_terminates s : Inv s -> exists sched, all_finished (trun sched s) = true.
 Proof. intros I. exact (terminates_n (Msr s) s I (le_n _)). Qed.
+
+(* --- what a retry loop waits for --- *)
+
+(* the waiting visit's acquire loop spins exactly on a PRESENT exclusive partition: the test is by
+   source id, so a removed descriptor is skipped whatever happened to its tag line since *)
+Lemma wacq_spin_iff ix p : wacq ix p = WSpin <-> exists td, get ix p = Some td /\ t_excl td = true.
+Proof.
+  unfold wacq. split.
+  - destruct (get ix p) as [td|]; [destruct (t_excl td) eqn:X|]; try discriminate. eauto.
+  - intros (td & -> & ->). reflexivity.
+Qed.
+
+Lemma astep_try_removed ix a c x : a_ctl a = CTry x -> get ix x = None ->
+  astep ix a c = (ix, with_ctl a CNext, false, Moved).
+Proof. intros H G. unfold astep. rewrite H. unfold wacq. rewrite G. reflexivity. Qed.
+
+Lemma astep_try_spun ix a c x ix' a' pn : a_ctl a = CTry x -> astep ix a c = (ix', a', pn, Spun) ->
+  exists td, get ix x = Some td /\ t_excl td = true.
+Proof.
+  intros H. unfold astep. rewrite H. destruct (wacq ix x) eqn:W; try discriminate. intros _.
+  apply wacq_spin_iff. exact W.
+Qed.
+
+(* a retry iteration of any actor: some present partition is exclusive, its locker is an actor
+   of the system and the locker's next step is never a retry *)
+Lemma inv_spin_cause s i c : Inv s -> snd (mstep_f s i c) = Spun ->
+  exists p td j b, get (s_ix s) p = Some td /\ t_excl td = true /\ nth_error (s_acts s) j = Some b /\
+    locker b = Some p /\ forall c', snd (mstep_f s j c') = Moved.
+Proof.
+  intros I. unfold mstep_f at 1. destruct (nth_error (s_acts s) i) as [a|] eqn:Ha; [|discriminate].
+  destruct (astep (s_ix s) a c) as [[[ix' a'] pn] r] eqn:E. cbn [snd]. intros ->.
+  destruct (astep_spun _ _ _ _ _ _ _ E eq_refl) as (p & td & G & X).
+  destruct (i_excl _ I p td G X) as (_ & j & b & Hb & L).
+  exists p, td, j, b. repeat split; auto. intros c'. unfold mstep_f. rewrite Hb.
+  pose proof (locker_moves (s_ix s) b c' p L) as M.
+  destruct (astep (s_ix s) b c') as [[[ix2 b2] pn2] r2]. exact M.
+Qed.
+
+(* ... and for the waiting visit it is the very partition it waits for *)
+Lemma inv_try_spin_cause s i c a x : Inv s -> nth_error (s_acts s) i = Some a -> a_ctl a = CTry x ->
+  snd (mstep_f s i c) = Spun ->
+  exists td j b, get (s_ix s) x = Some td /\ t_excl td = true /\ nth_error (s_acts s) j = Some b /\
+    locker b = Some x /\ forall c', snd (mstep_f s j c') = Moved.
+Proof.
+  intros I Ha Hc. unfold mstep_f at 1. rewrite Ha.
+  destruct (astep (s_ix s) a c) as [[[ix' a'] pn] r] eqn:E. cbn [snd]. intros ->.
+  destruct (astep_try_spun _ _ _ _ _ _ _ Hc E) as (td & G & X).
+  destruct (i_excl _ I x td G X) as (_ & j & b & Hb & L).
+  exists td, j, b. repeat split; auto. intros c'. unfold mstep_f. rewrite Hb.
+  pose proof (locker_moves (s_ix s) b c' x L) as M.
+  destruct (astep (s_ix s) b c') as [[[ix2 b2] pn2] r2]. exact M.
+Qed.
